@@ -24,6 +24,7 @@ import (
 	"github.com/Workiva/frugal/compiler"
 	"github.com/Workiva/frugal/compiler/generator"
 	htmlgen "github.com/Workiva/frugal/compiler/generator/html"
+	jsongen "github.com/Workiva/frugal/compiler/generator/json"
 	"github.com/Workiva/frugal/compiler/globals"
 	"github.com/Workiva/frugal/compiler/parser"
 
@@ -61,6 +62,7 @@ type jobResult struct {
 	Code  int               `json:"code"`
 	Msg   string            `json:"msg,omitempty"`
 	Files map[string]string `json:"files"`
+	Globs []string          `json:"globals"` // globals after the compile returned
 }
 
 type response struct {
@@ -69,6 +71,7 @@ type response struct {
 	Files     []fileInfo  `json:"files,omitempty"`
 	Plan      []string    `json:"plan,omitempty"`
 	Html      [][2]string `json:"html,omitempty"`
+	Json      []string    `json:"json,omitempty"`
 	UseVendor bool        `json:"use_vendor"`
 	Lang      string      `json:"lang,omitempty"`
 	Results   []jobResult `json:"results,omitempty"`
@@ -160,7 +163,22 @@ func analyze(q request) response {
 	for _, m := range htmlgen.VerifTransitiveIncludes(f) {
 		resp.Html = append(resp.Html, [2]string{m.Name, m.File})
 	}
+	for _, m := range jsongen.VerifCollectFrugals(f) {
+		resp.Json = append(resp.Json, m.File)
+	}
 	return resp
+}
+
+// globalsNow: the package-level state a following Compile would start from
+func globalsNow() []string {
+	b := func(x bool) string {
+		if x {
+			return "1"
+		}
+		return "0"
+	}
+	return []string{globals.TopicDelimiter, globals.Gen, globals.Out, globals.FileDir, b(globals.DryRun),
+		b(globals.Recurse), b(globals.Verbose), fmt.Sprint(len(globals.CompiledFiles))}
 }
 
 func hashTree(root string) (map[string]string, error) {
@@ -205,7 +223,7 @@ func compileSeq(q request) response {
 		err := compiler.Compile(compiler.Options{File: j.File, Gen: j.Gen, Out: j.Out, Delim: delim, Recurse: j.Recurse})
 		os.Chdir(home)
 		if err != nil {
-			resp.Results = append(resp.Results, jobResult{Code: hx.CodeOther, Msg: err.Error()})
+			resp.Results = append(resp.Results, jobResult{Code: hx.CodeOther, Msg: err.Error(), Globs: globalsNow()})
 			continue
 		}
 		root := j.Out
@@ -217,7 +235,7 @@ func compileSeq(q request) response {
 			resp.Results = append(resp.Results, jobResult{Code: hx.CodeOther, Msg: err.Error()})
 			continue
 		}
-		resp.Results = append(resp.Results, jobResult{Files: files})
+		resp.Results = append(resp.Results, jobResult{Files: files, Globs: globalsNow()})
 	}
 	return resp
 }
